@@ -396,8 +396,7 @@ class Schema(dict, metaclass=LogicalMeta):
                 )
             super().__delitem__(field.name)
 
-        if field.name in self.__dict__:
-            self.__dict__.pop(field.attname)
+        self.__dict__.pop(field.attname, None)
 
     def __delitem__(self, key: str):
         if self.__options__.immutable:
@@ -441,7 +440,12 @@ class Schema(dict, metaclass=LogicalMeta):
                 f"{self.__name__}: Attempt to delete required schema key: {repr(key)}"
             )
         args = () if unprovided(default) else (default,)
-        return super().pop(field.name, *args)
+        present = super().__contains__(field.name)
+        value = super().pop(field.name, *args)  # KeyError leaves everything as it was
+        if present:
+            # the attribute view must not keep the popped value
+            self.__dict__.pop(field.attname, None)
+        return value
 
     def update(self, __m=None, **kwargs):
         if self.__options__.immutable:
